@@ -26,9 +26,16 @@ pub struct Reprint {
     pub kinds: Vec<String>,
 }
 
+pub const PARSER_PANICKED: &str = "parser panicked";
+pub const STRINGIFIER_PANICKED: &str = "stringifier panicked";
+
 pub fn reprint(path: &str, src: &str, mangle: bool) -> Result<Reprint, String> {
-    let r = std::panic::catch_unwind(std::panic::AssertUnwindSafe(|| {
-        let (template, mut state) = parse(path, src);
+    // (a panic of the parser and a panic of the printer are different things for C14)
+    let parsed = std::panic::catch_unwind(std::panic::AssertUnwindSafe(|| parse(path, src)));
+    let Ok((template, mut state)) = parsed else {
+        return Err(PARSER_PANICKED.into());
+    };
+    let r = std::panic::catch_unwind(std::panic::AssertUnwindSafe(move || {
         // "not clean": any Warn/Error/Fatal, or an unknown meta tag (junk such as `<!x` is only a Note)
         let all = state.take_warnings();
         let fatal_seen = all.iter().any(|w| w.level() >= ParseErrorLevel::Fatal);
@@ -51,7 +58,7 @@ pub fn reprint(path: &str, src: &str, mangle: bool) -> Result<Reprint, String> {
     }));
     match r {
         Ok(x) => x,
-        Err(_) => Err("parser or stringifier panicked".into()),
+        Err(_) => Err(STRINGIFIER_PANICKED.into()),
     }
 }
 
@@ -218,6 +225,11 @@ pub fn run_explicit_opt(ew: &Value, want_log: bool, apply_known: bool) -> RunRes
         for (mangle, out) in [(false, &mut printed), (true, &mut mangled)] {
             let r1 = match reprint(p, s, mangle) {
                 Ok(r) => r,
+                // the parser crashing on the source itself is not the printer's doing
+                Err(e) if e == PARSER_PANICKED => return discard("the parser panics on the source", "discard.parser_panicked_on_source"),
+                Err(e) if e == STRINGIFIER_PANICKED => {
+                    return violated("stringifier_panics", format!("file {}: printing the parsed template panics\n source : {}", p, s), stats);
+                }
                 Err(e) => return discard(&format!("unexecutable: {}", e), "discard.stringifier_failed"),
             };
             if r1.fatal {
@@ -226,6 +238,13 @@ pub fn run_explicit_opt(ew: &Value, want_log: bool, apply_known: bool) -> RunRes
             // fixpoint: printing the re-parsed text gives the same text
             let r2 = match reprint(p, &r1.text, mangle) {
                 Ok(r) => r,
+                Err(e) if e == PARSER_PANICKED || e == STRINGIFIER_PANICKED => {
+                    return violated(
+                        "printed_text_panics",
+                        format!("file {}: {} on the re-printed text\n source : {}\n printed: {}", p, e, s, r1.text),
+                        stats,
+                    );
+                }
                 Err(e) => return discard(&format!("unexecutable: {}", e), "discard.stringifier_failed"),
             };
             // the fixpoint clause is asserted for every source without a Fatal diagnostic, the
